@@ -348,6 +348,19 @@ type MutB struct {
 	*MutA
 }
 
+// two struct types that refer to each other, one way through an embedded
+// pointer and the way back through an ordinary field (or a map value)
+type RecEmbA struct{ *RecEmbB }
+type RecEmbB struct {
+	X int
+	P *RecEmbA
+}
+type RecEmbE struct{ *RecEmbF }
+type RecEmbF struct {
+	Z int
+	M map[string]RecEmbE
+}
+
 type MutRoot struct {
 	A MutA
 	B MutB
